@@ -13,6 +13,30 @@ CHECKS = {
    text="Generated messages and byte strings against an independent reference encoder/decoder; versions, status codes and preamble bytes enumerated completely. Exploration: it samples the message space, it does not prove the codec.",
    note="Trusted: the hand-written reference codec (refmodel::wire) as layout authority, in-memory AsyncRead/AsyncWrite standing in for QUIC streams.",
    design="§4 C07"),
+ "C16": dict(
+   engine="proptest+libfuzzer",
+   technique="property-based testing: generated route tables (route/add_rpc_service/route_layer/nested merge) and probe strings against a string-comparison reference matcher with layer bookkeeping; invocation counters as oracle",
+   text="Generated tables and route strings; the oracle is an independent exact/prefix matcher plus per-service invocation counters and per-layer tags. Exploration of an unbounded table/string space.",
+   note="Trusted: refmodel::routes (written from the statement). Patterns limited to the kinds the statement names; ':param' patterns not generated.",
+   design="§4 C16"),
+ "C18": dict(
+   engine="proptest",
+   technique="property-based testing: model-based operation histories (arrive/poll/release/cancel) with hand-polled futures, per-peer running-set model as oracle",
+   text="The harness owns every poll, so request interleavings are generated, not sampled; the model is the per-peer running set. Exploration of histories up to 60 operations.",
+   note="Trusted: tokio Semaphore, dashmap. Inner service is an instrumented stub with a per-peer gauge.",
+   design="§4 C18"),
+ "C19": dict(
+   engine="proptest (real clock)",
+   technique="property-based testing: generated request scripts in real time, GCRA envelope invariant over every window of bracketed admissions, metamorphic hint probe (wait the hinted time => admitted)",
+   text="Generated quotas and scripts run in real time because governor's clock is not injectable; admissions are bracketed on one monotonic clock so the envelope check is conservative. Exploration; not a pure function of the seed.",
+   note="Trusted: std monotonic clock, tokio timers. Scheduling noise only widens brackets (fewer detections, no false alarms); a zero wait-nanos hint is tolerated only as a rare clock race.",
+   design="§4 C19"),
+ "C20": dict(
+   engine="proptest",
+   technique="property-based testing: generated allow-lists / custom authorizers and call histories through clones with hand-polled futures; invocation log + exact response comparison as oracle",
+   text="All 64 allow-lists over a 6-id universe are reachable; custom authorizers derive verdict and refusal response from the request, so 'exactly the authorizer's response' is checked byte for byte. Exploration of histories.",
+   note="An invocation of the wrapped service is its call(); trusted: nothing beyond std/tower.",
+   design="§4 C20"),
 }
 
 PENDING_REASON = "check not built yet in this session (design in DESIGN.md §4); not claimed until it runs clean on the unchanged tree"
